@@ -225,6 +225,11 @@ def main():
             'level_note': c['note'],
             'technique': c['technique'],
         })
+    # a check module without an entry in the table above would silently stay out of the interface
+    built = {f'C{name[1:3]}' for name in os.listdir(os.path.join(VERIF, 'harness', 'props')) if name.startswith('c') and name.endswith('.py') and name[1:3].isdigit()}
+    missing = sorted(built - set(CHECKS))
+    if missing:
+        raise SystemExit(f'harness/props has check modules that the manifest table does not list: {missing}')
     na = [{'property_id': pid, 'reason': NOT_YET.get(pid, 'check not built yet in this round (model and theorems planned in DESIGN.md section 7); not claimed')}
           for pid in ALL if pid not in CHECKS]
     doc = {
